@@ -2,22 +2,23 @@
 EXTENDS KvsSpec, Json, IOUtils
 TraceFile == IF "TRACE" \in DOMAIN IOEnv THEN IOEnv.TRACE ELSE "trace.ndjson"
 Trace == ndJsonDeserialize(TraceFile)
-VARIABLES l, kv, bad, seg, H
-vars == <<l, kv, bad, seg, H>>
-TInit == l = 1 /\ kv = <<>> /\ bad = TRUE /\ seg = 0 /\ H = <<>>
+VARIABLES l, kv, bad, seg, H, rng
+vars == <<l, kv, bad, seg, H, rng>>
+TInit == l = 1 /\ kv = <<>> /\ bad = TRUE /\ seg = 0 /\ H = <<>> /\ rng = <<0, 0>>
 Report(line, rules, e) ==
   PrintT("VIOL " \o ToJson([line |-> line, seg |-> seg, rules |-> rules, ev |-> e.ev, proc |-> IF "op" \in DOMAIN e THEN e.op ELSE "",
                             i |-> IF "i" \in DOMAIN e THEN e.i ELSE -1]))
 ToSet(q) == {q[i] : i \in 1..Len(q)}
 Consume ==
   /\ l <= Len(Trace) /\ l' = l + 1
+  /\ rng' = IF Trace[l].ev = "reset" THEN <<Trace[l].lo, Trace[l].hi>> ELSE rng
   /\ LET e == Trace[l] IN
      IF e.ev = "reset" THEN kv' = KInit(ToSet(e.keys)) /\ bad' = FALSE /\ seg' = e.seg /\ H' = <<KInit(ToSet(e.keys))>>
      ELSE /\ seg' = seg
           /\ IF bad THEN UNCHANGED <<kv, bad>>
              ELSE CASE e.ev = "kv" ->
-                        LET v == KCheck(kv, e) IN
-                        IF v = <<>> THEN kv' = KNext(kv, e) /\ bad' = FALSE ELSE Report(l, v, e) /\ bad' = TRUE /\ kv' = kv
+                        LET v == KCheck(kv, e, rng[1], rng[2]) IN
+                        IF v = <<>> THEN kv' = KNext(kv, e, rng[1], rng[2]) /\ bad' = FALSE ELSE Report(l, v, e) /\ bad' = TRUE /\ kv' = kv
                     [] e.ev = "kdump" ->
                         IF KDumpOK(kv, e) THEN UNCHANGED <<kv, bad>>
                         ELSE Report(l, <<"C18:state-differs-from-specification">>, e) /\ bad' = TRUE /\ kv' = kv
